@@ -800,6 +800,7 @@ class Parser:
                 self.i += 1
             if self.at_id("mut"):
                 self.i += 1
+                return ("tref", self.type(), "mut")
             return ("tref", self.type())
         if self.at_p("&&"):
             self.i += 1
@@ -1002,9 +1003,12 @@ class Parser:
         if self.at_p("&") or self.at_p("&&"):
             dbl = self.peek().s == "&&"
             self.i += 1
+            mut = False
             if self.at_id("mut"):
                 self.i += 1
-            e = ("ref", self.unary(nostruct))
+                mut = True
+            inner = self.unary(nostruct)
+            e = ("ref", inner, "mut") if mut else ("ref", inner)
             return ("ref", e) if dbl else e
         return self.postfix(nostruct)
 
